@@ -150,10 +150,11 @@ def collect {V} (ops : ValOps V) : List V → GetResult V
           | some v => .ready v
           | none => .mergeErr
 
-/-- dagChannel readiness: not skipped, no control predecessor waiting, every data
-    predecessor reported -/
+/-- dagChannel readiness: not skipped, it has some predecessor at all (a channel without any
+    predecessor is never ready), no control predecessor waiting, every data predecessor reported -/
 def Chan.triggered {V} (c : Chan V) : Bool :=
-  !c.skipped && !c.ctrl.any (fun p => p.2 == Dep.waiting) && !c.data.any (fun p => p.2 == false)
+  !c.skipped && !(c.ctrl.isEmpty && c.data.isEmpty) &&
+  !c.ctrl.any (fun p => p.2 == Dep.waiting) && !c.data.any (fun p => p.2 == false)
 
 /-- the deferred reset of `dagChannel.get` -/
 def Chan.reset {V} (c : Chan V) : Chan V :=
